@@ -88,8 +88,9 @@ async def""", ["C14"], "failed thread future is swallowed"),
 """, ["C12"], "exclusion applied after target selection"),
     ("m13_debug_pull_any_parent", G, "if set(self.predecessors(successor_id)).issubset(set(leaves_ids)):", "if True:", ["C13"],
      "debug successors pulled in regardless of their other parents"),
-    ("m14_results_shared", H, "    results = copy(results)\n    profiles: StrictDict", "    profiles: StrictDict", ["C15", "C16", "C17"],
-     "scheduler works on the caller's results map"),
+    ("m14_args_written_into_dag_results", H, "    # copy results in order to avoid modifying the original dict\n    results = copy(results)\n",
+     "    # copy results in order to avoid modifying the original dict\n", ["C15", "C16", "C17"],
+     "call arguments are written into the DAG's own results map (leak between calls / threads / awaits)"),
     ("m15_seq_check_only_conc", H, "if xn.is_sequential and running_threads() != 0:", "if xn.is_sequential and len(conc_running) != 0:", ["C05"],
      "sequential drain ignores async-thread nodes in flight"),
     ("m16_guard_off_by_one", H, "if running_threads() == max_concurrency or", "if running_threads() == max_concurrency + 1 or", ["C04"],
@@ -99,6 +100,8 @@ async def""", ["C14"], "failed thread future is swallowed"),
     ("r03_revert_D4", "revert", "0e556e7", "", ["C10", "C01"], "revert fix: indexed activation flag"),
     ("r04_revert_D12", "revert", "3129148", "", ["C10", "C01"], "revert fix: constant False on nested DAG"),
     ("r05_revert_D8", "revert", "c368ba9", "", ["C20", "C01"], "revert fix: explicit argument vs default of nested DAG"),
+    ("m18_async_as_thread", H, "        if xn.resource == Resource.thread:\n", "        if xn.resource in (Resource.thread, Resource.async_thread):\n", ["C17"],
+     "async-thread nodes are submitted and waited like thread nodes (loop blocked)"),
     ("m17_active_whole_value", H, "return bool(xn.active.result(results))", "return bool(results[xn.active.id])", ["C10"],
      "activation ignores the key path (re-introduces D4)"),
 ]
